@@ -132,7 +132,7 @@ func statusSwitchMapping(p *core.Prog, h *core.RuleH, fn *ssa.Function) {
 }
 
 func runC01(p *core.Prog, r *core.Report) {
-	r.Explain = "Decides that every metabase view consults the shared status machinery before it yields an object, on all CFG paths: exists, get (unless its caller asked to skip the status, callers tabled), filtered and unfiltered search, listing, expired iteration, EC part resolution and IsLocked pass containerMarkedGC==false and the object-status test with the 'available' outcome; the search handler records an object only after the additional (status) checker accepted it; the three removed states map to the same error classes in every view; the two expiry predicates are strict and oriented the same way; the nested status takes the worse of own and parent status; inGarbage reports tombstoned/GC-marked only on the matching lookups. Every function opening a read transaction is classified (a new view fails the check until classified). (R6) A removal mark is never weakened: a garbage key is written with a possibly non-empty value (the redundant-copy mark, which reads as 'available') only on paths where the key was looked up and found absent; an existing key is only overwritten with the empty, full mark. Not covered: that the status function implements the reference rules on every history (parent inheritance across collisions, interplay of marks) — that is behavioural."
+	r.Explain = "Decides that every metabase view consults the shared status machinery before it yields an object, on all CFG paths: exists, get (unless its caller asked to skip the status, callers tabled), filtered and unfiltered search, listing, expired iteration, EC part resolution and IsLocked pass containerMarkedGC==false and the object-status test with the 'available' outcome; the search handler records an object only after the additional (status) checker accepted it; the three removed states map to the same error classes in every view; the two expiry predicates are strict and oriented the same way; the nested status takes the worse of own and parent status; inGarbage reports tombstoned/GC-marked only on the matching lookups. Every function opening a read transaction is classified (a new view fails the check until classified). (R6) A removal mark is never weakened: a garbage key is written with a possibly non-empty value (the redundant-copy mark, which reads as 'available') only on paths where the key was looked up and found absent; an existing key is only overwritten with the empty, full mark. (R7) deleteMetadata removes a garbage mark only together with the entry it marks (no entry, a parent removed with its last part, or a stored object): a non-stored parent named on its own keeps its mark. Not covered: that the status function implements the reference rules on every history (parent inheritance across collisions, interplay of marks) — that is behavioural."
 	// ---------------- R0 classification of read transactions
 	r0 := r.Rule("C01.R0", "every metabase function that opens a bbolt read transaction is classified as an object view (ruled below) or as not yielding objects by status (with reason)", 15)
 	views := map[string]string{
@@ -445,7 +445,79 @@ func runC01(p *core.Prog, r *core.Report) {
 	// ---------------- R6 a removal mark is never weakened
 	r6 := r.Rule("C01.R6", "a garbage key is written with a non-empty (redundant-copy) value only where the key was looked up and found absent; an existing mark is only ever overwritten with the empty (full) mark", 3)
 	garbageMarkNotWeakened(p, r, r6)
+	// ---------------- R7 a mark goes only together with what it marks
+	r7 := r.Rule("C01.R7", "deleteMetadata removes a garbage mark only when the marked entry goes with it (or there is no entry): never the mark of a parent that still exists through its parts", 1)
+	markGoesWithEntry(p, r, r7)
 	r.Analysed["views_classified"] = len(views)
+}
+
+// markGoesWithEntry: shared by C01.R7 and C09.R6. In deleteMetadata the removal of the garbage key is reached only on paths
+// where (a) no index entry exists for the id, or (b) the entry is removed as a parent together with its last part, or (c) the
+// entry is a stored object (it has just been removed). A non-stored parent named on its own keeps its mark — otherwise it
+// turns from 'not found' back to 'available' while its parts are still there.
+func markGoesWithEntry(p *core.Prog, r *core.Report, h *core.RuleH) {
+	del := p.Func(mb + "deleteMetadata")
+	if del == nil {
+		r.Fatalf("%s: deleteMetadata not found", h.ID())
+		return
+	}
+	var gcStoreBlk *ssa.BasicBlock
+	for _, b := range del.Blocks {
+		for _, in := range b.Instrs {
+			if _, ok := fieldStore(in, cdiff+"GC"); ok {
+				gcStoreBlk = b
+			}
+		}
+	}
+	if gcStoreBlk == nil {
+		r.Fatalf("%s: deleteMetadata no longer decrements the GC counter", h.ID())
+		return
+	}
+	isGCTest := func(c *ssa.Call) bool {
+		return core.CalleeName(c) == "bytes.Equal" && branchDominates(c, true, gcStoreBlk)
+	}
+	gs := []core.Guard{
+		{Name: "no-entry-for-the-id", Pure: true, Comps: []core.Comp{{Result: -1, Kind: core.IsFalse}}, Match: func(s core.Site) bool {
+			c, ok := s.Call.(*ssa.Call)
+			return ok && s.Name == "bytes.Equal" && !isGCTest(c)
+		}},
+		{Name: "removed-as-a-parent-with-its-last-part", Pure: true, Comps: []core.Comp{{Result: -1, Kind: core.IsTrue}}, Value: func(f *ssa.Function, v ssa.Value) bool {
+			return core.ParamIndex(f, v) >= 0 && v.Type().String() == "bool"
+		}},
+		{Name: "entry-is-a-stored-object", Pure: true, Comps: []core.Comp{{Result: -1, Kind: core.IsFalse}}, Value: func(_ *ssa.Function, v ssa.Value) bool {
+			bo, ok := v.(*ssa.BinOp)
+			if !ok || bo.Op.String() != "==" {
+				return false
+			}
+			c, isC := bo.X.(*ssa.Call)
+			if !isC || core.CalleeName(c) != mb+"getObjAttribute" {
+				return false
+			}
+			k, isK := c.Call.Args[2].(*ssa.Const)
+			return isK && k.Value != nil && strings.Contains(k.Value.ExactString(), "$Object:PHY")
+		}},
+	}
+	n := core.CheckEffectsFn(p, h, del, core.EffectRule{Guards: gs,
+		Derived: []core.Derived{{Name: "the-marked-entry-goes-too", Alts: [][]string{{"no-entry-for-the-id"}, {"removed-as-a-parent-with-its-last-part"}, {"entry-is-a-stored-object"}}}},
+		Need:    func(string) []string { return []string{"the-marked-entry-goes-too"} },
+		Effect: func(_ *core.Prog, in ssa.Instruction) (string, bool) {
+			c, ok := in.(*ssa.Call)
+			if !ok || core.CalleeName(c) != "(*github.com/nspcc-dev/bbolt.Cursor).Delete" {
+				return "", false
+			}
+			// the Delete positioned on the garbage key: the one inside the branch that also decrements GC
+			for _, b := range del.Blocks {
+				for _, i2 := range b.Instrs {
+					if eq, isC := i2.(*ssa.Call); isC && isGCTest(eq) && branchDominates(eq, true, c.Block()) {
+						return "remove-garbage-mark", true
+					}
+				}
+			}
+			return "", false
+		}})
+	if n == 0 {
+		r.Fatalf("%s: the removal of the garbage key was not found in deleteMetadata", h.ID())
+	}
 }
 
 // garbageMarkNotWeakened: the value of a garbage key decides availability (empty = removed, redundant mark = still
@@ -526,9 +598,13 @@ func runListingRule(p *core.Prog, r *core.Report, h *core.RuleH) {
 	avail := core.Guard{Name: "not-marked-for-removal", Match: func(s core.Site) bool {
 		return s.Name == mb+"inGarbage" && core.ParamIndex(body, s.Call.Common().Args[1]) == 0
 	}, Comps: []core.Comp{{Result: -1, Kind: core.EqConst, Const: stAvail}}}
-	core.CheckEffectsFn(p, h, body, core.EffectRule{Min: 1, Guards: []core.Guard{avail}, Effect: func(_ *core.Prog, in ssa.Instruction) (string, bool) {
-		return "append-to-listing", storeToFreeVar(in, "to")
-	}})
+	locked := core.Guard{Name: "live-lock-overrides-the-mark", Match: func(s core.Site) bool { return s.Name == mb+"objectLocked" }, Comps: []core.Comp{{Result: -1, Kind: core.IsTrue}}}
+	core.CheckEffectsFn(p, h, body, core.EffectRule{Min: 1, Guards: []core.Guard{avail, locked},
+		Derived: []core.Derived{{Name: "available-for-reads", Alts: [][]string{{"not-marked-for-removal"}, {"live-lock-overrides-the-mark"}}}},
+		Need:    func(string) []string { return []string{"available-for-reads"} },
+		Effect: func(_ *core.Prog, in ssa.Instruction) (string, bool) {
+			return "append-to-listing", storeToFreeVar(in, "to")
+		}})
 	core.CheckEffectsFn(p, h, sel, core.EffectRule{Min: 1, Guards: []core.Guard{cnrNotGC()}, Effect: func(_ *core.Prog, in ssa.Instruction) (string, bool) {
 		return "listing-loop", makesClosure(in, body)
 	}})
